@@ -972,6 +972,31 @@ MAP_READ = dict(region='map_read', file='cmdline/state.c', begin="} else if (c =
 FS_IS_EMPTY = dict(region='fs_is_empty', file='cmdline/elem.c', begin='struct extent_disk_empty {', include_begin=True, end='struct extent_disk_size {', max_lines=60, expect_loops=0, raw=True)
 
 
+LINK_WRITE = dict(region='link_write', file='cmdline/state.c', scope='static void* state_write_thread(void* arg)', begin='/* for each link */', end='/* for each dir */', end_first_after=True, max_lines=35, expect_loops=1,
+                  proto='static void *region_link_write(struct snapraid_disk *disk, STREAM *f, unsigned *count_hardlink_p, unsigned *count_symlink_p, void *context)',
+                  prologue='\ttommy_node *j;\n\tunsigned count_hardlink = *count_hardlink_p, count_symlink = *count_symlink_p;', epilogue='\t*count_hardlink_p = count_hardlink; *count_symlink_p = count_symlink;\n\treturn 0;')
+DIR_WRITE = dict(region='dir_write', file='cmdline/state.c', scope='static void* state_write_thread(void* arg)', begin='/* for each dir */', end='/* deleted blocks of the disk */', end_first_after=True, max_lines=25, expect_loops=1,
+                 proto='static void *region_dir_write(struct snapraid_disk *disk, STREAM *f, unsigned *count_dir_p, void *context)',
+                 prologue='\ttommy_node *j;\n\tunsigned count_dir = *count_dir_p;', epilogue='\t*count_dir_p = count_dir;\n\treturn 0;')
+
+
+def _link_read(name, scope, end, counter, isdir=False):
+    return dict(region=name, file='cmdline/state.c', scope=scope, begin='disk = tommy_array_get(&disk_mapping, mapping);', end=end, end_first_after=True, max_lines=60, expect_loops=0,
+                proto='static void region_%s(struct snapraid_disk *disk, STREAM *f, const char *path, unsigned *%s_p)' % (name, counter),
+                prologue=('\tint ret;\n\tchar sub[PATH_MAX];\n' + ('\tstruct snapraid_dir *dir;\n' if isdir else '\tchar linkto[PATH_MAX];\n\tstruct snapraid_link *slink;\n') + '\tunsigned %s = *%s_p;' % (counter, counter)),
+                epilogue='\t*%s_p = %s;\n\t(void)ret;' % (counter, counter))
+
+
+LINK_REGIONS = [LINK_WRITE, DIR_WRITE, _link_read('link_read_s', "} else if (c == 's') {", "} else if (c == 'a') {", 'count_symlink'),
+                _link_read('link_read_a', "} else if (c == 'a') {", "} else if (c == 'r') {", 'count_hardlink'), _link_read('dir_read', "} else if (c == 'r') {", "} else if (c == 'c') {", 'count_dir', True)]
+
+
+def linkrec_obs():
+    return [Ob('state.link_dir_records.roundtrip', 'harness/h_linkrec.c', 'h_link_dir_records', inject=LINK_REGIONS, unwind=8, small_path=True, timeout=900, mem=8, cost=4, kind='bounded', bound='at most 2 links and 2 empty directories on the disk, one-letter names',
+               functions=["state_write_thread: regions 'for each link' and 'for each dir' (cmdline/state.c, extracted mechanically)", "state_read_content: branches of the 's', 'a' and 'r' records (extracted)"],
+               note='0..2 links each symlink or hardlink, 0..2 directories, every name / target letter; link_alloc / dir_alloc / tommy_hashdyn_insert by recording stubs, list functions real')]
+
+
 def fsempty_obs():
     return [Ob('elem.fs_is_empty', 'harness/h_fsempty.c', 'h_fs_is_empty', inject=[FS_IS_EMPTY], unwind=4, small_path=True, timeout=600, mem=6, cost=2,
                functions=['fs_is_empty + extent_disk_empty_compare_unlock (cmdline/elem.c, extracted verbatim)'],
@@ -1052,7 +1077,7 @@ def blockruns_obs():
 
 
 def c10(tier, seed):
-    return stream_obs(['h_rt32', 'h_rt64', 'h_rtle32', 'h_rtbs']) + staterec_obs(tier) + blockruns_obs() + frecord_obs() + header_obs() + maprec_obs() + holeruns_obs() + fsempty_obs()
+    return stream_obs(['h_rt32', 'h_rt64', 'h_rtle32', 'h_rtbs']) + staterec_obs(tier) + blockruns_obs() + frecord_obs() + header_obs() + maprec_obs() + holeruns_obs() + fsempty_obs() + linkrec_obs()
 
 
 PROPS = {
@@ -1284,7 +1309,7 @@ def c08(tier, seed):
 def c16(tier, seed):
     """format stability = every constant / encoding is pinned to a definition that is not in the repo"""
     c17 = [o for o in PROPS['C17']['obligations'](tier, seed) if o.name in ('parity.split_find.contract', 'parity.split_find.lemma')]
-    return table_obs(tier) + crc_obs(tier) + stream_obs(['h_sgetb32', 'h_sgetb64', 'h_sgetble32', 'h_sgetbs', 'h_rt32', 'h_rt64', 'h_rtle32', 'h_rtbs']) + staterec_obs(tier) + elem_obs(tier) + c17 + hash_obs(tier) + main_obs()[:1] + frecord_obs() + blockruns_obs() + header_obs() + maprec_obs() + holeruns_obs()
+    return table_obs(tier) + crc_obs(tier) + stream_obs(['h_sgetb32', 'h_sgetb64', 'h_sgetble32', 'h_sgetbs', 'h_rt32', 'h_rt64', 'h_rtle32', 'h_rtbs']) + staterec_obs(tier) + elem_obs(tier) + c17 + hash_obs(tier) + main_obs()[:1] + frecord_obs() + blockruns_obs() + header_obs() + maprec_obs() + holeruns_obs() + linkrec_obs()
 
 
 def c04(tier, seed):
